@@ -79,6 +79,11 @@ EXPECTED_PROBES = ["probe.live_member_suspected", "probe.suspect_revived", "prob
 SHRINK_SKIP = ("klass",)
 
 _ST = {MemberState.ALIVE: "A", MemberState.SUSPECT: "S", MemberState.DEAD: "D"}
+HEALTHY = ("healthy", "healthy-moderate")
+# one-way delay bound as a fraction of the probe interval: 5 % everywhere, except in healthy-moderate, where the
+# ping+ack round trip may exceed the 0.5-interval direct-ack window (suspect / late-ack / refute paths) while every
+# message is still delivered within a bound below the ack timeout and well inside one probe round
+DELAY_FRAC = {"healthy-moderate": 0.30}
 
 
 # --------------------------------------------------------------------------
@@ -111,27 +116,34 @@ def gen(rng, tier):
         return _gen_phi(rng)
     # "failure-early" was split off while the never-heard defect was recorded; since fix dfba083 it is folded back:
     # one failure class, crash instant anywhere (the name is still accepted for the committed replay)
-    klass = "healthy" if r < 0.42 else "failure" if r < 0.82 else "flap"
+    klass = "healthy" if r < 0.27 else "healthy-moderate" if r < 0.47 else "failure" if r < 0.84 else "flap"
     n = rng.choice([3, 3, 4, 5, 5, 6, 7, 9])
     p = rng.choice([0.2, 0.5, 1.0, 1.0, 2.0])
     sus = round(p * rng.choice([0.5, 1, 2, 3, 5, 8]), 4)
     thr = rng.choice([1.0, 2.0, 4.0, 8.0, 8.0, 12.0, 16.0])
     # one-way delay <= 5 % of the probe interval on every link
     total = rng.choice([0.05, 0.05, 0.03, 0.01, 0.002])
+    if klass == "healthy-moderate":
+        total = rng.choice([0.3, 0.3, 0.28, 0.2, 0.12])
     split = rng.random()
     prof = {"base": round(p * total * split, 9), "jitter": round(p * total * (1 - split), 9)}
     per_link = {}
     if rng.random() < 0.4:  # a few links at the bound / near zero
         for _ in range(rng.randint(1, 3)):
             a, b = rng.sample(range(n), 2)
-            f = rng.choice([0.05, 0.0005])
+            f = rng.choice([0.05, 0.0005]) if klass != "healthy-moderate" else rng.choice([0.3, 0.26, 0.01])
             per_link[f"m{a}->m{b}"] = {"base": round(p * f, 9), "jitter": 0.0}
-    starts = [round(rng.uniform(0, p * rng.choice([0.0, 0.3, 1.0, 3.0])), 6) for _ in range(n)]
+    # members start a fraction of a probe round (or a few rounds) apart; 1 in 6 runs starts them all at once
+    spread = rng.choice([0.0, 0.2, 0.3, 0.5, 1.0, 3.0])
+    starts = [round(rng.uniform(0, p * spread), 6) for _ in range(n)]
+    if spread and rng.random() < 0.3:  # evenly staggered boot, 0.05-0.5 rounds apart
+        step = rng.choice([0.05, 0.1, 0.2, 0.35, 0.5])
+        starts = [round(i * step * p, 6) for i in range(n)]
     sc = {"klass": klass, "seed": rng.getrandbits(32), "net_seed": rng.getrandbits(32), "probe_interval": p,
           "suspicion_timeout": sus, "indirect": rng.choice([0, 1, 2, 3, 3, 4]), "phi_threshold": thr,
           "profile": prof, "per_link": per_link, "starts": starts}
     dl = deadline_rounds(n, p, thr, 0.05 * p)
-    if klass == "healthy":
+    if klass in HEALTHY:
         sc["horizon"] = round(p * rng.choice([30, 60, 120, 200]), 4)
     elif klass in ("failure", "failure-early"):
         sc["victim"] = rng.randrange(n)
@@ -269,11 +281,12 @@ def _validate(sc):
         if "base" not in pr:  # KeyedLatency would silently default to 1 ms
             raise InvalidScenario("profile needs an explicit base delay")
     for pr in profs:
-        if pr.get("base", 0.0) < 0 or pr.get("jitter", 0.0) < 0 or pr.get("base", 0.0) + pr.get("jitter", 0.0) > 0.05 * p * (1 + 1e-9):
+        bound = DELAY_FRAC.get(sc.get("klass"), 0.05)
+        if pr.get("base", 0.0) < 0 or pr.get("jitter", 0.0) < 0 or pr.get("base", 0.0) + pr.get("jitter", 0.0) > bound * p * (1 + 1e-9):
             raise InvalidScenario("delay bound of the healthy network exceeded")
         if set(pr) - {"base", "jitter"}:
             raise InvalidScenario("only base/jitter allowed")
-    if sc["klass"] != "healthy":
+    if sc["klass"] not in HEALTHY:
         if not 0 <= sc.get("victim", -1) < n or sc.get("crash_t", -1) < 0:
             raise InvalidScenario("victim")
     if sc["klass"] == "flap" and sc.get("restart_t", 0) <= sc["crash_t"]:
@@ -286,7 +299,7 @@ def _validate(sc):
 def run(sc):
     if sc.get("klass") == "phi":
         return run_phi(sc)
-    if sc.get("klass") not in ("healthy", "failure", "failure-early", "flap"):
+    if sc.get("klass") not in ("healthy", "healthy-moderate", "failure", "failure-early", "flap"):
         raise InvalidScenario("klass")
     n = _validate(sc)
     klass = sc["klass"]
@@ -305,7 +318,7 @@ def run(sc):
     victim = sc.get("victim")
     vname = f"m{victim}" if victim is not None else None
     faults = []
-    if klass != "healthy":
+    if klass not in HEALTHY:
         faults.append({"kind": "crash", "node": victim, "start": sc["crash_t"],
                        "end": sc["restart_t"] if klass == "flap" else None})
     fd = FaultDriver(net, nodes, links, faults)
@@ -462,9 +475,9 @@ def run(sc):
     counters["phi.samples_in_cluster"] = pr["phi_samples"]
     counters.update(fd.counters())
     counters["budget_exhausted"] = budget
-    live = [x for x in nodes if x.name != vname or klass == "healthy"]
+    live = [x for x in nodes if x.name != vname or klass in HEALTHY]
     cycles_ok = all(x.stats.probes_sent >= 2 * (n - 1) for x in live)
-    nontrivial = (not budget) and cycles_ok and (klass in ("healthy", "flap") or (fd.fired.get("fault.crash", 0) > 0 and past_deadline_checked[0]))
+    nontrivial = (not budget) and cycles_ok and (klass in ("healthy", "healthy-moderate", "flap") or (fd.fired.get("fault.crash", 0) > 0 and past_deadline_checked[0]))
     views = []
     for x in nodes:
         c = {"A": 0, "S": 0, "D": 0}
